@@ -391,6 +391,10 @@ pub fn diff_legs(ctx: &str, a: &[RLeg], b: &[RLeg], p: &Proj) -> Option<String> 
         if p.qty { if let Some(d) = qdiff(&format!("{c} quantity"), &x.qty, &y.qty) { return Some(d); } }
         if p.money {
             if let Some(d) = qdiff(&format!("{c} allowable cost"), &x.cost, &y.cost) { return Some(d); }
+            // per-rule proceeds and gains depend on which SELL line of the day a leg came from;
+            // when legs are folded only quantities and costs are comparable per rule (the
+            // disposal's totals are compared at disposal level)
+            if !p.legs_exact { continue; }
             if let Some(d) = qdiff(&format!("{c} gain"), &x.gain, &y.gain) { return Some(d); }
             if let (Some(g1), Some(g2)) = (&x.gross, &y.gross) { if let Some(d) = qdiff(&format!("{c} gross"), g1, g2) { return Some(d); } }
             if let (Some(g1), Some(g2)) = (&x.net, &y.net) { if let Some(d) = qdiff(&format!("{c} net"), g1, g2) { return Some(d); } }
